@@ -121,14 +121,19 @@ PruneTree(t, md) ==
 -----------------------------------------------------------------------------
 (* environment consistency: all inputs describe one ground-truth forest (one parent and one deleted flag
    per revision id, ancestries complete).  Order independence is stated for such inputs. *)
+(* the ghost maps are sparse: defined for the revisions mentioned so far *)
+NoFn == [x \in {} |-> Unk]
+Look(f, x) == IF x \in DOMAIN f THEN f[x] ELSE Unk
+UP(x) == Look(upar, x)
+UD(x) == IF x \in DOMAIN udel THEN udel[x] ELSE "?"
 ChainCons(ch, del) ==
-  /\ \A k \in 1..Len(ch) : upar[ch[k]] \in {Unk, IF k < Len(ch) THEN ch[k + 1] ELSE Nil}
-  /\ udel[ch[1]] \in {"?", IF del THEN "T" ELSE "F"}
-UparAfter(ch) == [x \in Rev |-> IF x \in Range(ch) /\ upar[x] = Unk
+  /\ \A k \in 1..Len(ch) : UP(ch[k]) \in {Unk, IF k < Len(ch) THEN ch[k + 1] ELSE Nil}
+  /\ UD(ch[1]) \in {"?", IF del THEN "T" ELSE "F"}
+UparAfter(ch) == [x \in DOMAIN upar \cup Range(ch) |-> IF x \in Range(ch) /\ UP(x) = Unk
                                 THEN (LET k == CHOOSE k \in 1..Len(ch) : ch[k] = x IN IF k < Len(ch) THEN ch[k + 1] ELSE Nil)
-                                ELSE upar[x]]
-UdelAfter(ch, del) == IF udel[ch[1]] = "?" THEN [udel EXCEPT ![ch[1]] = IF del THEN "T" ELSE "F"] ELSE udel
-Tok2(r, b) == IF r \in Rev THEN [btok EXCEPT ![r] = b] ELSE btok
+                                ELSE UP(x)]
+UdelAfter(ch, del) == [x \in DOMAIN udel \cup {ch[1]} |-> IF x = ch[1] /\ UD(x) = "?" THEN (IF del THEN "T" ELSE "F") ELSE udel[x]]
+Tok2(r, b) == IF r \in Rev THEN [x \in DOMAIN btok \cup {r} |-> IF x = r THEN b ELSE btok[x]] ELSE btok
 Tag(r) == r                                  \* body token written with a revision by the model environment
 
 IsChain(ch) == \A k \in 1..(Len(ch) - 1) : ch[k].g > ch[k + 1].g
@@ -143,7 +148,7 @@ Init ==
   /\ cur = [i \in Reps |-> Nil] /\ flags = [i \in Reps |-> NoFlags] /\ win = [i \in Reps |-> NoWin]
   /\ wb = [i \in Reps |-> Nil]
   /\ cfg \in Configs
-  /\ btok = [r \in Rev |-> Unk] /\ upar = [r \in Rev |-> Unk] /\ udel = [r \in Rev |-> "?"]
+  /\ btok = NoFn /\ upar = NoFn /\ udel = NoFn
   /\ cons = TRUE /\ pruned = FALSE /\ acc = [i \in Reps |-> {}] /\ fed = [i \in Reps |-> <<>>]
   /\ pre = [on |-> FALSE, i |-> 0, k |-> "", t |-> EmptyTree, c |-> Nil, x |-> {}]
   /\ hist = <<>>
@@ -158,7 +163,7 @@ Settle(i, m, t, tf, bt) ==
           /\ win' = [win EXCEPT ![i] = NoWin]
      ELSE \E w \in WinResults(tf) :
             /\ cur' = [cur EXCEPT ![i] = w] /\ flags' = [flags EXCEPT ![i] = FlagsOf(tf, w)]
-            /\ wb' = [wb EXCEPT ![i] = IF cfg.lvl = "db" /\ tf[w].del THEN Nil ELSE bt[w]]   \* a stored tombstone is served bare
+            /\ wb' = [wb EXCEPT ![i] = IF cfg.lvl = "db" /\ tf[w].del THEN Nil ELSE Look(bt, w)]   \* a stored tombstone is served bare
             /\ IF t = tf THEN win' = [win EXCEPT ![i] = WinOf(t, w)]
                ELSE \E w2 \in WinResults(t) : win' = [win EXCEPT ![i] = WinOf(t, w2)]
 Same(i) == UNCHANGED <<tree, mem, cur, flags, win, wb>>
@@ -254,7 +259,7 @@ PutHistD(i, ch, del, nc) ==
 PutChild(i, p, d, del) ==
   LET par == PutParent(i, p)  r == Mk(par.g + 1, d) IN
   /\ par.g < MaxGen /\ Room(i, {r}) /\ Turn(i) /\ (Feed => i = 1)
-  /\ upar[r] = Unk /\ r \notin DOMAIN tree[i]        \* Put makes a fresh revision id (digest of parent and body)
+  /\ UP(r) = Unk /\ r \notin DOMAIN tree[i]          \* Put makes a fresh revision id (digest of parent and body)
   /\ Lean => (p = Nil \/ p \in DOMAIN tree[i])
   /\ ImplPutChild(i, p, r, del, Tag(r))
   /\ GhostInput(i, FullOf(tree[i], r, par), del, FALSE, Tag(r), PutOutcome(i, p, del) = "ok", "db", {par})
@@ -308,7 +313,7 @@ PruneSafe == pre.on =>
 ReloadPreserves == \A i \in Reps : mem[i] = tree[i]
 (* the body served for the document is the body written with the winning revision (a tombstone is served
    without the properties it was written with - not demanded) *)
-WinningBody == \A i \in Reps : (cur[i] \in DOMAIN tree[i] /\ ~tree[i][cur[i]].del) => wb[i] = btok[cur[i]]
+WinningBody == \A i \in Reps : (cur[i] \in DOMAIN tree[i] /\ ~tree[i][cur[i]].del) => wb[i] = Look(btok, cur[i])
 (* two replicas that accepted the same set of revisions (with their ancestries), in any orders *)
 OrderIndependent == \A i, j \in Reps :
   (cfg.n > 1 /\ cons /\ ~pruned /\ acc[i] = acc[j]) =>
